@@ -35,6 +35,18 @@ class C01(props.Prop):
         'output file exists)')
 
     def gen(self, rng, tier):
+        if rng.random() < 0.15:
+            # lexical stress: the command depends on tokens that are hard to
+            # render (they survive the minimisation), all output modes
+            from .. import gen_input
+            text, tricky = gen_input.gen_lexical(rng)
+            spec = workload.base_spec(
+                rng, text=text, jobs=(1, 2),
+                out_modes=('--wrap-lines', '--wrap-lines', '--pretty-print', ''))
+            keep = rng.sample(tricky, rng.randint(1, min(2, len(tricky))))
+            spec['model']['rules'] = [[{'k': 'contains', 'toks': keep}, 'bug']]
+            add_compare(rng, spec, p_cc=0.1)
+            return {'prop': 'C01', 'runs': [spec]}
         spec = workload.base_spec(rng)
         toks = reftok.tokenize(spec['input'])
         if rng.random() < 0.6:
